@@ -36,6 +36,7 @@ def plan(tier, seed):
     q = tier == "quick"
     S = [{"kind": "shapes", "stream": i, "n": 600 if q else 7000} for i in range(12 if q else 16)]
     S += [{"kind": "trees", "stream": i, "n": 400 if q else 5000} for i in range(3 if q else 8)]
+    S += [{"kind": "rev16", "stream": i, "n": 40 if q else 500} for i in range(2 if q else 6)]
     return S
 
 
@@ -122,6 +123,49 @@ def shape(rng, w, nv):
     return [cmp_, lhs, k()]
 
 
+def rev_shape(rng):
+    from vf.gen import exprgen as G
+
+    w = 16
+    x = G.bvs("a", w)
+    pool = [0, 1, 0xFF, 0x100, 0x101, 0xFF00, 0xFFFF, 0x8000, 0x7FFF, 0x80, 0x7F, 0x1234, rng.getrandbits(16), rng.getrandbits(16)]
+
+    def k(width=w):
+        return ["bvv", rng.choice(pool) & ((1 << width) - 1), width]
+
+    cmp_ = rng.choice(G.CMP_ALL)
+    rx = ["reverse", x]
+    s = rng.randrange(10)
+    if s == 0:
+        c = [cmp_, rx, k()]
+    elif s == 1:
+        c = [cmp_, k(), rx]
+    elif s == 2:
+        c = [cmp_, ["add", rx, k()], k()]
+    elif s == 3:
+        c = [cmp_, ["reverse", ["add", x, k()]], k()]
+    elif s == 4:
+        hi = rng.choice([7, 15, 11])
+        lo = rng.choice([0, 8, 4]) if hi == 15 else 0
+        c = [cmp_, ["extract", hi, lo, rx], k(hi - lo + 1)]
+    elif s == 5:
+        c = [cmp_, ["zext", 8, rx], k(24)]
+    elif s == 6:
+        c = [cmp_, ["and", rx, ["bvv", rng.choice([0xFF, 0xFF00, 0x0FF0, 0x7FFF]), 16]], k()]
+    elif s == 7:
+        c = [cmp_, rx, x]
+    elif s == 8:
+        c = [cmp_, ["sub", rx, k()], k()]
+    else:
+        c = [cmp_, ["concat", ["extract", 7, 0, x], ["extract", 15, 8, x]], k()]
+    r = rng.random()
+    if r < 0.15:
+        return ["bnot", c]
+    if r < 0.3:
+        return ["band", c, [rng.choice(G.CMP_ALL), x, k()]]
+    return c
+
+
 def constraint(rng, w, nv):
     r = rng.random()
     if r < 0.6:
@@ -130,8 +174,10 @@ def constraint(rng, w, nv):
         return ["band", shape(rng, w, nv), shape(rng, w, nv)]
     if r < 0.85:
         return ["bor", shape(rng, w, nv), shape(rng, w, nv)]
-    if r < 0.93:
+    if r < 0.90:
         return ["bnot", shape(rng, w, nv)]
+    if r < 0.93:
+        return ["bnot", [rng.choice(["band", "bor"]), shape(rng, w, nv), shape(rng, w, nv)]]
     return ["band", shape(rng, w, nv), ["bor", shape(rng, w, nv), shape(rng, w, nv)]]
 
 
@@ -279,7 +325,14 @@ def run_shard(spec, res):
         nv = rng.choice([1, 1, 2])
         w = rng.choice([3, 4, 4, 5, 6, 8] if nv == 1 else [3, 4, 4, 5])
         anns = {f"{'ab'[j]}{w}": (w, c24.rand_ann(rng, w) if rng.random() < 0.6 else None) for j in range(nv)}
-        if kind == "shapes":
+        if kind == "rev16":
+            # byte-reversed operands need two bytes (a one-byte Reverse is rewritten away): one 16-bit variable, all
+            # 65536 assignments (or the annotated range) enumerated
+            nv, w = 1, 16
+            anns = {"a16": (16, c24.rand_ann(rng, 16) if rng.random() < 0.7 else None)}
+            d = rev_shape(rng)
+            res.count("reverse_shapes")
+        elif kind == "shapes":
             d = constraint(rng, w, nv)
         else:
             g = G.Gen(rng, nvars=nv, widths=[w], surface=False, allow_div=False, closed=True, nbools=0)
